@@ -264,6 +264,9 @@ func doSys(t *testing.T, run *emit.Run, p *pool, r *rand.Rand, script []string) 
 		}
 		for _, rw := range rs {
 			ids = append(ids, rw.id)
+			if _, known := p.id[rw.assignee]; !known {
+				run.Violate("C14:assignee-unknown", fmt.Sprintf("message %d (%s) is assigned to %q, which is no validator of any table", rw.id, rw.kind, rw.assignee), replay())
+			}
 			if f, ok := s.first[rw.id]; !ok {
 				s.first[rw.id] = rw.assignee
 			} else if f != rw.assignee {
@@ -568,7 +571,7 @@ func doSys(t *testing.T, run *emit.Run, p *pool, r *rand.Rand, script []string) 
 			}
 		case "submit":
 			id := pickID()
-			if scripted {
+			if scripted && len(ids) > 0 {
 				id = ids[len(ids)-1]
 			}
 			g := uint64(1 + r.Intn(400000))
@@ -601,7 +604,7 @@ func doSys(t *testing.T, run *emit.Run, p *pool, r *rand.Rand, script []string) 
 			}
 		case "attest-error":
 			id := pickID()
-			if scripted {
+			if scripted && len(ids) > 0 {
 				id = ids[len(ids)-1]
 			}
 			opS = fmt.Sprintf("SAttestError %d %s", id, emit.ZI(ts))
